@@ -100,3 +100,84 @@ sys.exit(1 if bad else 0)
 @_rp.battery(FSP + "__init__")
 def _fsp_battery():
     return _rp.run_script(_FSP_BATTERY, "the provider delivers readlines() of the file, each line without its newline, plus '' iff the text ends with a newline")
+
+
+# ---------------------------------------------------------------------------------------------------------------
+# InMemorySourceProvider (scan_string / fix_string / the API): the same lines as a file.  The provider keeps the text still to be
+# delivered as `split('\n', 1)` of it: [next line] or [next line, rest].  Each call delivers the text up to the first newline and keeps
+# exactly what follows it; nothing is dropped, and a text ending in a newline ends with an empty last line -- the line structure
+# FileSourceProvider produces for the same characters.
+from pyvc.spec import REGISTRY as _R  # noqa: E402
+IMP = "pymarkdown/general/source_providers.py::InMemorySourceProvider."
+T = "self.__next_line_tuple"
+_R["$fields"].types.update({"InMemorySourceProvider._InMemorySourceProvider__next_line_tuple": "List[str]"})
+SPLIT1 = Assumed("str.split('\\n', 1)", params=["sep", "maxsplit"], returns="List[str]", fresh_result=True, pure=True,
+                 requires=["sep == '\\n'", "maxsplit == 1"],
+                 ensures=["len(result) == 1 or len(result) == 2",
+                          "newline_free(result[0], 0, len(result[0]))",
+                          "len(result[0]) <= len(self)",
+                          "forall(lambda k: char_at(result[0], k) == char_at(self, k), 0, len(result[0]))",
+                          "(len(result) == 1) == newline_free(self, 0, len(self))",
+                          "implies(len(result) == 1, len(result[0]) == len(self))",
+                          "implies(len(result) == 2, char_at(self, len(result[0])) == 10 and len(result[1]) == len(self) - len(result[0]) - 1)",
+                          "implies(len(result) == 2, forall(lambda k: char_at(result[1], k) == char_at(self, len(result[0]) + 1 + k), 0, len(result[1])))"],
+                 why="str.split(sep, 1) for a one-character separator: [s] if sep does not occur, else [text before the first sep, text after it]")
+WF = f"(len({T}) == 0 or len({T}) == 1 or len({T}) == 2) and implies(len({T}) >= 1, newline_free({T}[0], 0, len({T}[0])))"
+register(Contract(
+    key=IMP + "__init__", properties=["C16", "C14"],
+    calls={"source_text.split": SPLIT1},
+    ensures=[WF, f"len({T}) >= 1", f"forall(lambda k: char_at({T}[0], k) == char_at(source_text, k), 0, len({T}[0]))",
+             f"(len({T}) == 1) == newline_free(source_text, 0, len(source_text))",
+             f"implies(len({T}) == 2, len({T}[1]) == len(source_text) - len({T}[0]) - 1 and "
+             f"forall(lambda k: char_at({T}[1], k) == char_at(source_text, len({T}[0]) + 1 + k), 0, len({T}[1])))"],
+    modifies=["self.__next_line_tuple"],
+))
+REST = f"old({T}[1])"
+register(Contract(
+    key=IMP + "get_next_line", properties=["C16", "C14"],
+    calls={"self.__next_line_tuple[1].split": SPLIT1},
+    requires=[WF],
+    ensures=[WF,
+             f"implies(old(len({T})) == 0, result is None and len({T}) == 0)",
+             f"implies(old(len({T})) >= 1, result is old({T}[0]))",
+             f"implies(old(len({T})) == 1, len({T}) == 0)",
+             # what remains is exactly the text after the newline, split again: nothing is dropped or duplicated
+             f"implies(old(len({T})) == 2, len({T}) >= 1 and forall(lambda k: char_at({T}[0], k) == char_at({REST}, k), 0, len({T}[0])) and "
+             f"((len({T}) == 1) == newline_free({REST}, 0, len({REST}))))",
+             f"implies(old(len({T})) == 2 and len({T}) == 2, len({T}[1]) == len({REST}) - len({T}[0]) - 1 and "
+             f"forall(lambda k: char_at({T}[1], k) == char_at({REST}, len({T}[0]) + 1 + k), 0, len({T}[1])))",
+             f"implies(old(len({T})) == 2 and len({T}) == 1, len({T}[0]) == len({REST}))"],
+    raises=[],
+    modifies=["self.__next_line_tuple"],
+))
+
+_IMP_BATTERY = r'''
+import os, sys, tempfile
+from pymarkdown.general.source_providers import FileSourceProvider, InMemorySourceProvider
+CASES = ["", "\n", "a", "a\n", "a\nb", "a\n\nb\n", "a\x0cb\nc\n", "a\x0bb\n", "a\x1cb\x1dc\x1ed\n", "a\x85b\n", "a b c\n", "\n\n", " \n\t", "a\n\x0c", "a\x0c"]
+def drain(p):
+    out = []
+    while True:
+        line = p.get_next_line()
+        if line is None: return out
+        out.append(line)
+bad = []
+for text in CASES:
+    fd, name = tempfile.mkstemp(suffix=".md"); os.close(fd)
+    try:
+        with open(name, "wb") as f: f.write(text.encode("utf-8"))
+        want, got = drain(FileSourceProvider(name)), drain(InMemorySourceProvider(text))
+        if want != got or got != text.split("\n"):
+            bad.append((text, text.split("\n"), want, got))
+    finally:
+        os.remove(name)
+for b in bad:
+    print("text %r: lines at newlines %r, file provider %r, in-memory provider %r" % b)
+sys.exit(1 if bad else 0)
+'''
+
+
+@_rp.battery(IMP + "__init__")
+@_rp.battery(IMP + "get_next_line")
+def _imp_battery():
+    return _rp.run_script(_IMP_BATTERY, "the in-memory provider delivers exactly the lines between newlines, the same as the file provider")
